@@ -99,7 +99,7 @@ scen = [s for s in pc.export_scenarios(ctx, 'events') if s['req']['class'] == 'v
 r = dp.run(scen)
 good = {'obs': r['obs'], 'k': r['k']}
 bad = {'obs': [e for e in r['obs'] if e != ['app', 'method_context_closed']], 'k': r['k']}
-cfgm = ['INIT Init', 'NEXT Next', 'CONSTANT Clauses = {"ClosedOnce", "CreatedOnce", "SrOnce"}', 'CONSTRAINT Report', 'CHECK_DEADLOCK FALSE']
+cfgm = ['INIT Init', 'NEXT Next', 'CONSTANT Clauses = {"ClosedOnce", "ClosedLast", "CreatedOnce", "SrOnce"}', 'CONSTRAINT Report', 'CHECK_DEADLOCK FALSE']
 expect('pipeline: close event removed', 'TracePipelineMon', good, bad, 'ClosedOnce', cfgm)
 
 import shutil
